@@ -110,7 +110,9 @@ TsLoop(col, l, i, f) ==
                \* a part that does not fit its field is not a date part: the column's default, never a wrapped value
                (IF i = 1 THEN (IF v.b # 0 THEN Default(col) ELSE TsLoop(col, l, i + 1, [f EXCEPT ![1] = v.i]))
                 ELSE IF v.b # 0 \/ v.i < 0 THEN Default(col)
-                ELSE IF i = 7 THEN (IF v.i > 4000000 THEN (IF col.micro THEN TsLoop(col, l, i + 1, [f EXCEPT ![7] = v.i]) ELSE XUnk)
+                ELSE IF i = 7 THEN \* a fraction of two seconds or more is beyond even the leap-second encoding: not a fraction of a second
+                                   \* (milliseconds are scaled by 1000: the product may not wrap around either)
+                                   (IF (col.micro /\ v.i >= 2000000) \/ (~col.micro /\ v.i >= 2000) THEN Default(col)
                                     ELSE TsLoop(col, l, i + 1, [f EXCEPT ![7] = IF col.micro THEN v.i ELSE v.i * 1000]))
                 ELSE TsLoop(col, l, i + 1, [f EXCEPT ![i] = v.i]))
           ELSE IF i = 2 THEN
